@@ -15,7 +15,7 @@ pub const DEF: PropDef = PropDef {
     run,
     replay,
     level: "exploration",
-    rule: "three generators: (a) boundary sweep - for every (handshake string, DH, message index) one probing call per case on a fresh session driven honestly to that message: writes with every output-buffer length at each field boundary -1/0/+1 and at 0/total/total+16/65535/65536/66000 and payload lengths around the maximum, reads of the genuine message truncated at every boundary +-1, of garbage of those lengths, with payload buffers 0/p-1/p/p+1, and oversize messages; (b) proptest op sequences over the whole public API (name strings incl. edited/non-ASCII/random, builder keys of length 0..=200, prologues up to 66000, psk locations 0..=255 and huge (2^32, 2^63, usize::MAX), reads/writes with arbitrary bytes and buffers 0..=66000, set_psk, getters, conversions at any time, transport/stateless ops with boundary nonces, rekeys, nonce setters); (b2) scalar arguments at their extremes: set_psk(location, key) for 22 locations up to usize::MAX x key lengths 0/31/32/33, nonce setters and stateless nonces at the same 22 values, on fresh / mid-handshake / finished sessions; (c) arbitrary strings to the name parser, and names with 1..5000 modifiers / repeated tokens / every psk index 0..300; every name that parses is built bare AND with all keys and ten PSKs supplied (so that the build passes the prerequisite checks), then written and read once. Oracle: no call unwinds (catch_unwind at the call boundary), every call returns Ok/Err and never a length larger than its output buffer. Non-trivial = a case that got past build and executed at least one read/write; distinct by full case value",
+    rule: "three generators: (a) boundary sweep - for every (handshake string, DH, message index) one probing call per case on a fresh session driven honestly to that message: writes with every output-buffer length at each field boundary -1/0/+1 and at 0/total/total+16/65535/65536/66000 and payload lengths around the maximum, reads of the genuine message truncated at every boundary +-1, of garbage of those lengths, with payload buffers 0/p-1/p/p+1, and oversize messages; (b) proptest op sequences over the whole public API (name strings incl. edited/non-ASCII/random, builder keys of length 0..=200, prologues up to 66000, psk locations 0..=255 and huge (2^32, 2^63, usize::MAX), reads/writes with arbitrary bytes and buffers 0..=66000, set_psk, getters, Debug formatting of every session object and the raw Split() query after every operation, conversions at any time, transport/stateless ops with boundary nonces, rekeys, nonce setters); (b2) scalar arguments at their extremes: set_psk(location, key) for 22 locations up to usize::MAX x key lengths 0/31/32/33, nonce setters and stateless nonces at the same 22 values, on fresh / mid-handshake / finished sessions; (c) arbitrary strings to the name parser, and names with 1..5000 modifiers / repeated tokens / every psk index 0..300; every name that parses is built bare AND with all keys and ten PSKs supplied (so that the build passes the prerequisite checks), then written and read once. Oracle: no call unwinds (catch_unwind at the call boundary), every call returns Ok/Err and never a length larger than its output buffer. Non-trivial = a case that got past build and executed at least one read/write; distinct by full case value",
     technique: "robustness fuzzing: exhaustive boundary sweep from reference-model field maps + proptest API op-sequence generation with shrinking (+ libFuzzer target api_ops in the thorough tier)",
     assumptions: &[
         "non-termination and process aborts are only observable as time-outs (exit 2), never decided",
@@ -404,8 +404,10 @@ fn parse_oracle(c: &ParseCase, acc: &mut Acc) -> CaseResult {
                 match h {
                     Ok(mut h) => {
                         let mut buf = vec![0u8; 1024];
+                        let _ = format!("{:?}", h);
                         let _ = h.write_message(b"x", &mut buf);
                         let _ = h.read_message(&[0u8; 100], &mut buf);
+                        let _ = format!("{:?}", h);
                         true
                     },
                     Err(_) => false,
